@@ -5,8 +5,8 @@ META = dict(
     category='model_checking',
     engine='WorkingCopy',
     technique='TLA+ state machine WorkingCopy: TLC model checking of the transcribed per-path update against the C24 contract + TLC-generated check-out/snapshot/sparse behaviours replayed on a real LocalWorkingCopy + seeded random scripts, every step judged by TLC',
-    text='CheckOut is transcribed entry by entry in file-system order (create_parent_dirs, remove_old_file, can_create_new_file, write, empty-parent removal). Contract CheckOutOK: from a pristine working copy (disk = materialisation of the tree within the sparse patterns) the disk after check-out is exactly the materialisation of the new tree (conflicts as marker files, no stray directories), nothing is skipped, and a snapshot right away returns the identical tree; since the result depends only on the new tree, switching between two trees equals checking out the second from scratch. TLC checks this for every sequence of check-outs among 10 trees (files, executables, symlinks, file<->directory replacements, 3-term conflicts, ignore files) and sparse changes, under both exec-bit policies; behaviours are replayed on a real working copy and judged step by step.',
-    note='Conflict marker files are decoded with jj\'s own parser (C05 covers that pair); EOL modes are covered by C29, not here; exec policy "ignore" is compared modulo the exec bit on disk. Bounded: 6-path universe, 10 trees in the model checker (random trees in the I->S driver).',
+    text='CheckOut is transcribed entry by entry in file-system order (create_parent_dirs, remove_old_file, can_create_new_file, write, empty-parent removal). Contract CheckOutOK: from a pristine working copy (disk = materialisation of the tree within the sparse patterns) the disk after check-out is exactly the materialisation of the new tree (conflicts as marker files, no stray directories), nothing is skipped, and a snapshot right away returns the identical tree; since the result depends only on the new tree, switching between two trees equals checking out the second from scratch. TLC checks this for every sequence of check-outs among 12 trees (files, executables, symlinks, file<->directory replacements, 3-term file conflicts and file-vs-symlink conflicts, each under two conflict-label sets with identical tree ids, ignore files) and sparse changes, under both exec-bit policies; behaviours are replayed on a real working copy and judged step by step.',
+    note='Conflict marker files are decoded with jj\'s own parser (C05 covers that pair); EOL modes are covered by C29, not here; exec policy "ignore" is compared modulo the exec bit on disk. The disk value of a materialised conflict carries its terms and the id of the label set embedded in the markers / description, so a label-only switch must rewrite every conflict file. Bounded: 7-path universe, 12 trees in the model checker (random trees with random label sets in the I->S driver; half of the random check-outs of a conflicted tree are followed by the same tree under the other label set).',
     design='4 C24',
 )
 READY = True
@@ -17,6 +17,6 @@ def run(ctx):
     wcutil.run_wc(
         ctx, "C24",
         mc_cfgs=ctx.q(["c24", "c24_xignore"], ["c24_thorough", "c24_xignore"]),
-        neg_cfgs=[("neg_co_keep_dirs", "Inv_C24")],
+        neg_cfgs=[("neg_co_keep_dirs", "Inv_C24"), ("neg_co_labels_file_only", "Inv_C24")],
         gen_cfgs=[("gen_c24", ctx.q(250, 800)), ("gen_c24_xignore", ctx.q(100, 300))],
         n_random=ctx.q(300, 2000), focus="checkout")
